@@ -44,3 +44,30 @@ contract(F + "IntegerRange.gen_sample", props=["C12"],
     callees={"np.random.randint": RANDINT},
     ensures=["is_int(result)", "self.config['start'] <= result", "result <= self.config['stop']"],
     modifies=[])
+
+
+# ---------------------------------------------------------------------------------------------- helpers of gen_symbols_samples (C13) and scopes (C11, C09)
+contract(F + "is_subset", props=["C13"],
+    requires=["is_seq(iterable)", "is_dict(iterable_superset)"],
+    ensures=["is_bool(result)", "result == forall(range(len(iterable)), lambda i: iterable[i] in iterable_superset)"],
+    modifies=[],
+    loops={"for item in iterable": dict(invariant=["forall(range(0, K), lambda i: iterable[i] in iterable_superset)"])})
+
+contract(F + "construct_constants", props=["C13", "C11"],
+    requires=["is_dict(default_variables) and allocated(default_variables)", "is_dict(user_consts) and allocated(user_consts)"],
+    ensures=["fresh(result) and is_dict(result)",
+             # every default constant stays available; the caller's dictionaries are not written (frame)
+             "forall(vals(), lambda k: implies(k in default_variables, k in result))"],
+    modifies=[],
+    loops={"for var in user_consts": dict(
+        modifies=["constants"],
+        invariant=["is_dict(constants) and fresh(constants)", "forall(vals(), lambda k: implies(k in default_variables, k in constants))"])})
+
+contract(F + "construct_suffixes", props=["C09", "C11", "C13"], global_dicts=['METRIC_SUFFIXES'],
+    requires=["is_dict(default_suffixes) and allocated(default_suffixes)", "not same(default_suffixes, METRIC_SUFFIXES)"],
+    ensures=["fresh(result) and is_dict(result)",
+             "forall(vals(), lambda k: implies(k in default_suffixes, k in result))",
+             "implies(not metric, forall(vals(), lambda k: (k in result) == (k in default_suffixes)))",
+             "implies(metric, forall(vals(), lambda k: (k in result) == (k in default_suffixes or k in METRIC_SUFFIXES)))"],
+    # the library-wide default suffix table is never written: metric suffixes enabled for one grader do not leak into others
+    modifies=[])
